@@ -2,6 +2,7 @@ package main
 
 import (
 	"bytes"
+	"encoding/json"
 	"fmt"
 	"go/ast"
 	"go/printer"
@@ -26,6 +27,10 @@ func cmdDump(args []string) int {
 		return 1
 	}
 	switch args[0] {
+	case "anchors":
+		// the reference for renamed functions: fingerprints of every function of the tree
+		b, _ := json.MarshalIndent(p.Fingerprints(), "", " ")
+		fmt.Println(string(b))
 	case "mapranges":
 		p.ForEachNode(func(pk *packages.Package, file *ast.File, stack []ast.Node, n ast.Node) bool {
 			if rs, ok := n.(*ast.RangeStmt); ok {
